@@ -165,6 +165,27 @@ def analyse(w, line0, col0, props, out):
                     feats = feats or span_features(w, s, k)
                     out("C09", f"C09:diag_pos:{e.name}:{ttype}:{feats}",
                         f"{e.name} is not located inside its {ttype} token", cond)
+    if "C09" in props:
+        # every highlight of every lexical diagnostic (hints included) lies inside the text: not before the start line, not
+        # after the last line that holds a character
+        # (the end of the CONSUMED span: the characters behind it were not looked at by this step, and a lexical diagnostic of
+        # this step cannot point there)
+        tl, tc = O.advance(line0, col0, w[:k])
+        last_line = tl
+        if k:
+            lc = w[k - 1]
+            lv = lc if type(lc) is str else lc.it[0]
+            if type(lv) is str:
+                last_line = tl - 1 if lv == "\n" else tl
+            else:
+                tle = SymInt.lift(tl)
+                last_line = SymInt(z3.If(lv.z == 10, tle - 1, tle))
+        for e in errs:
+            for hi, h in enumerate(e.highlights):
+                cond = c_or(poly.lt(h.lineno, line0), poly.gt(h.lineno, last_line), poly.lt(h.column, 1))
+                if cond is not False:
+                    out("C09", f"C09:highlight_outside_text:{e.name}:{'first' if hi == 0 else 'secondary'}",
+                        f"a highlight of {e.name} lies outside the text (line before the start / after the last line, or column < 1)", cond)
     if "C10" in props:
         if nbad != len(bad):
             out("C10", f"C10:badlex-count:{ttype}", f"{nbad} BAD_LEXEME for {len(bad)} unmatched characters", True)
